@@ -46,7 +46,7 @@ def accepts(ty, kind):
 def kinds_for(ty, tier, rng):
     ks = list(KINDS) + (KINDS128 if ty in ("i128", "u128") else [])
     if tier == "quick":
-        must = [k for k in ks if k[0] in ("u64", "i64", "f64", "unit")]
+        must = [k for k in ks if k[0] in ("u64", "i64", "f64", "unit", "u128", "i128")]
         rest = [k for k in ks if k not in must]
         ks = must + rng.sample(rest, 2)
     return ks
@@ -68,6 +68,35 @@ def top_harness(d, hname, kind, evexpr, sabotage=False):
         b.append("assert!(unsafe { NEWTYPE_CALLS } == 1 && unsafe { LAST_NEWTYPE_NAME }.len() == 1 && unsafe { LAST_NEWTYPE_NAME }.as_bytes()[0] == b'N', \"entry is not deserialize_newtype_struct(<type name>)\");")
     b.append(oracle_block(d, "inner", "got", sabotage))
     return "    #[kani::proof]\n    #[kani::unwind(4)]\n    pub fn %s() {\n        %s\n    }\n" % (hname, "\n        ".join(b))
+
+
+def alt_deserializer_harnesses(d, base):
+    """other ways a deserializer may drive the visitor: (a) newtype struct presented as a one-element sequence (visit_seq);
+    (b) RON-like strict options (a bare value is not an Option). Whatever the generated visitor does with them, an Ok result
+    must be what the constructor returns for the delivered inner value."""
+    ty = d.ty
+    pk = "F64" if is_float(ty) else ("I64" if is_signed(ty) else "U64")
+    out, hs = [], []
+    conv = "x as %s" % ty
+    def body(de):
+        b = [d.setup(), "let x: %s = kani::any();" % {"F64": "f64", "I64": "i64", "U64": "u64"}[pk], "let ev = Ev::%s(x);" % pk,
+             "let inner = <%s as Deserialize>::deserialize(StubDe::new(ev));" % ty,
+             "let got = <%s as Deserialize>::deserialize(%s { ev });" % (d.name, de)]
+        if d.has_validation():
+            b.append("if let Ok(v) = got { match inner { Ok(xi) => { let s = %s; assert!(%s, \"deserialized a value the constructor rejects\"); let g = v.into_inner(); assert!(%s, \"deserialized value is not the sanitized value\"); } Err(_) => { assert!(false, \"newtype deserialized although the inner value does not\"); } } }"
+                     % (d.san_ref("xi"), d.valid_expr("s"), d.eq("g", "s")))
+        else:
+            b.append("if let Ok(v) = got { match inner { Ok(xi) => { let s = %s; let g = v.into_inner(); assert!(%s, \"deserialized value is not the sanitized value\"); } Err(_) => { assert!(false); } } }" % (d.san_ref("xi"), d.eq("g", "s")))
+        return b
+    b = body("StubDeSeq") + ["kani::cover!(true);"]
+    out.append("    #[kani::proof]\n    #[kani::unwind(5)]\n    pub fn %s_as_seq() {\n        %s\n    }\n" % (base, "\n        ".join(b)))
+    hs.append(H(base + "_as_seq", "main", dict(d.describe(), deserializer="newtype struct presented as a one-element sequence (visit_seq)")))
+    b = body("StubDeStrictOpt") + ["kani::cover!(true);",
+        "let got2 = <%s as Deserialize>::deserialize(StubDeStrictOpt { ev });" % d.name,
+        "assert!(got2.is_ok() == <%s as Deserialize>::deserialize(StubDe::new(ev)).is_ok(), \"a format with explicit options (RON) gets a different verdict than JSON/MessagePack for the same value\");" % d.name]
+    out.append("    #[kani::proof]\n    #[kani::unwind(5)]\n    pub fn %s_strict_opt() {\n        %s\n    }\n" % (base, "\n        ".join(b)))
+    hs.append(H(base + "_strict_opt", "main", dict(d.describe(), deserializer="RON-like explicit options")))
+    return "".join(out), hs
 
 
 def nested_harnesses(d, base):
@@ -130,7 +159,7 @@ def generate(tier, seed):
     src = ["// generated by props/c04.py\n"]
     all_types = INT_TYPES + FLOAT_TYPES
     core = ["i8", "u16", "i32", "u64", "f32", "f64"]
-    types = all_types if tier == "thorough" else ["i8", "i32", "u64", "f32", "f64"] + rng.sample([t for t in all_types if t not in core], 1)
+    types = all_types if tier == "thorough" else ["i8", "i32", "u64", "u128", "f32", "f64"] + rng.sample([t for t in all_types if t not in core and t != "u128"], 1)
     first = True
     for ty in types:
         fl = is_float(ty)
@@ -141,7 +170,7 @@ def generate(tier, seed):
                 variants = [(True, "fn"), (False, None)] if tier == "thorough" else [(bool(base), "fn")]
                 for (p, s) in variants:
                     v = base + (["pred"] if p else [])
-                    d = NumDecl(ty, v, san=s, derive=["Deserialize"])
+                    d = NumDecl(ty, v, san=s, derive=["Deserialize", "Default"], default=("1.0" if fl else "1"))
                     m = d.modname()
                     hsrc = ""
                     for (kind, evexpr) in kinds_for(ty, tier, rng):
@@ -152,6 +181,11 @@ def generate(tier, seed):
                             hsrc += top_harness(d, hn + "_must_fail", kind, evexpr, sabotage=True)
                             plan.add(H(hn + "_must_fail", "must_fail", {"sabotage": "oracle ignores the sanitizer"}))
                             first = False
+                    if tier == "thorough" or ty in ("i32", "f64", "u64"):
+                        asrc, ahs = alt_deserializer_harnesses(d, "c04_alt_" + m)
+                        hsrc += asrc
+                        for h in ahs:
+                            plan.add(h)
                     if (tier == "thorough" and s) or (ty == "i32" and v in ([], ["gt", "le", "pred"])) or (ty == "f64" and v == ["gt", "le", "pred"]):
                         nsrc, nhs = nested_harnesses(d, "c04_nested_" + m)
                         hsrc += nsrc
